@@ -1,6 +1,7 @@
 import Infretis.Model.Proto
 import Infretis.Model.Readers
 import Infretis.Model.ReadersObj
+import Infretis.Model.ReadersSlack
 open Infretis Infretis.Proto Infretis.Readers
 
 /-!
@@ -12,6 +13,8 @@ Line protocol of the C13 driver.
   rplv <asIs|repaired> <hex content> <K> …                    rpl with the variant named; rpf kind l-asIs likewise
   xspec <m len₁ … len_m> <K> <n c₁ … cₙ> × K                  `exactStages` on frame indices
   lspec <m len₁ … len_m> <K> <n c₁ … cₙ> × K                  `lmpStages` on frame indices
+  lspecs <2m len₁ slack₁ … len_m slack_m> <K> <n c₁ … cₙ> × K  `lmpStagesS` (per-frame slack, every cut) on frame indices
+  lspecps <2m len₁ slack₁ …> <K> <n e₁ … eₙ> × K               `lmpStagesPosS`: stage = pos:indices
   trrhdr <hex bytes>                                          `trrHeader` (read_trr_header at byte level)
   trr  <2m h₁ d₁ … h_m d_m> <n size₁ … sizeₙ>                 `trrRun` events (r:off:len:size, y:k, w)
   rpx  <asIs|repaired> <hex content> <K> <n e₁ … eₙ> × K      the reader OBJECT (`rpRun`, xyz): eᵢ = 0 file absent,
@@ -81,6 +84,11 @@ def content? (h : String) : Option (List Char) :=
 def showIdx (st : List (List Nat)) : String :=
   " | ".intercalate (st.map (fun fs => ",".intercalate (fs.map toString)))
 
+
+def pairsOf : List Nat → List (Nat × Nat)
+  | a :: b :: rest => (a, b) :: pairsOf rest
+  | _ => []
+
 def handle (toks : List String) : String :=
   match toks with
   | "xyz" :: v :: h :: k :: rest =>
@@ -120,6 +128,15 @@ def handle (toks : List String) : String :=
       match (parseNat? k).bind (fun k => takeSeqs k rest) with
       | some seqs =>
         " # ".intercalate (seqs.map (fun cuts => showIdx (lmpStages lens (List.range lens.length) cuts 0 false)))
+      | none => "bad-op"
+    | _ => "bad-op"
+  | "lspecs" :: rest =>
+    match takeList parseNat? rest with
+    | some (ls, k :: rest) =>
+      match (parseNat? k).bind (fun k => takeSeqs k rest) with
+      | some seqs =>
+        let fr := pairsOf ls
+        " # ".intercalate (seqs.map (fun cuts => showIdx (lmpStagesS fr (List.range fr.length) cuts 0 0)))
       | none => "bad-op"
     | _ => "bad-op"
   | ["trrhdr", h] =>
@@ -236,6 +253,14 @@ def handleExt (toks : List String) : Option String :=
       (((parseNat? k).bind (fun k => takeSeqs k rest))).map (fun seqs =>
         " # ".intercalate (seqs.map (fun evs =>
           showPosStages (lmpStagesPos lens (List.range lens.length) (evs.map decEv) 0 false))))
+    | _ => none
+  | "lspecps" :: rest =>
+    match takeList parseNat? rest with
+    | some (ls, k :: rest) =>
+      (((parseNat? k).bind (fun k => takeSeqs k rest))).map (fun seqs =>
+        let fr := pairsOf ls
+        " # ".intercalate (seqs.map (fun evs =>
+          showPosStages (lmpStagesPosS fr (List.range fr.length) (evs.map decEv) 0 0))))
     | _ => none
   | "rpf" :: kind :: n :: rest =>
     match parseNat? n, files? rest with
